@@ -76,13 +76,17 @@ def gen_client_scenario(rng):
         delay = rng.choice([0, 5, 10, 10])
         if size or delay:
             break
-    latest = rng.choice([0, 0, 0, 1])
-    ops = [f"creset delay={delay} size={size} latest={latest}"]
+    latest = rng.choice([0, 0, 1, 1])
+    pos = rng.choice([0, 1])
+    ops = [f"creset delay={delay} size={size} latest={latest} pos={pos}"]
     nid = 0
+    nkeys = rng.choice([0, 2, 3])
     for _ in range(rng.choice([4, 8, 14, 24])):
         if rng.random() < 0.75:
             nid += 1
-            ops.append(f"cadd f={rng.choice(['p', 'p', 'p', 'j', 'l', 'l'])} id={nid}")
+            f = rng.choice(['p', 'p', 'p', 'p', 'j', 'l'])
+            key = rng.randint(1, nkeys) if (f == 'p' and nkeys) else 0
+            ops.append(f"cadd f={f} id={nid} key={key}")
         else:
             d = max(delay, 1)
             ops.append(f"csleep {rng.choice([1, d - 1, d, d + 1, 2 * d])}")
@@ -93,7 +97,17 @@ def gen_client_scenario(rng):
 def client_oracle(sc, out):
     cfg = kvs(sc[0])
     latest, delay = cfg["latest"] == "1", int(cfg["delay"])
-    produced, kinds, delivered = [], {}, []
+    size = int(cfg["size"])
+    kinds, keys, delivered, pending = {}, {}, [], []
+
+    def spec(pend):
+        if not latest:
+            return list(pend)
+        nonpub = [i for i in pend if kinds[i] != "p"]
+        pubs = [i for i in pend if kinds[i] == "p"]
+        newest = [i for n, i in enumerate(pubs) if not any(keys[j] == keys[i] for j in pubs[n + 1:])]
+        return nonpub + newest
+
     for op, o in zip(sc, out):
         ws = op.split()
         if o == "<missing>":
@@ -106,8 +120,9 @@ def client_oracle(sc, out):
             return "harness rejected op " + op
         if ws[0] == "cadd":
             kv = kvs(op)
-            produced.append(int(kv["id"]))
-            kinds[int(kv["id"])] = kv["f"]
+            i = int(kv["id"])
+            kinds[i], keys[i] = kv["f"], kv.get("key", "0")
+            pending.append(i)
         got = [int(x) for x in o[len("seq=["):-1].split(",") if x]
         for i in got:
             if i not in kinds:
@@ -115,24 +130,19 @@ def client_oracle(sc, out):
             if i in delivered:
                 return f"push {i} delivered twice"
             delivered.append(i)
-        if not latest:
-            if delivered != produced[:len(delivered)]:
-                return (f"at `{op}` the connection received the channel's pushes as {delivered[-6:]} but they were "
-                        f"produced in the order {produced[max(0, len(delivered) - 6):len(delivered)]}")
-        else:
-            np = [i for i in delivered if kinds[i] != "p"]
-            if np != [i for i in produced if kinds[i] != "p"][:len(np)]:
-                return f"at `{op}` join/leave pushes were delivered out of order or lost: {np[-6:]}"
-            pubs = [i for i in delivered if kinds[i] == "p"]
-            if pubs != sorted(pubs):
-                return f"at `{op}` an older publication was delivered after a newer one: {pubs[-6:]}"
-        if ws[0] == "csleep" and delay > 0 and int(ws[1]) >= delay:
-            missing = [i for i in produced if i not in delivered and (not latest or kinds[i] != "p")]
-            if latest:
-                lastpub = [i for i in produced if kinds[i] == "p"][-1:]
-                missing += [i for i in lastpub if i not in delivered]
-            if missing:
-                return f"after `{op}` pushes {missing[:6]} are still not delivered although MaxDelay {delay}ms elapsed"
+        if got:
+            # one op causes at most one flush of the channel's batch
+            want = spec(pending)
+            if got != want:
+                what = ("join/leave pushes then the newest publication of each key in last-update order"
+                        if latest else "the pushes produced since the last flush, in order")
+                return f"at `{op}` the connection received {got}; expected {what} = {want}"
+            pending = []
+        if ws[0] == "cadd" and size > 0 and len(spec(pending)) >= size:
+            return (f"after `{op}` {len(spec(pending))} pushes are batched for the channel although MaxSize is {size} "
+                    f"(no size-triggered flush)")
+        if ws[0] == "csleep" and delay > 0 and int(ws[1]) >= delay and pending:
+            return f"after `{op}` pushes {spec(pending)[:6]} are still not delivered although MaxDelay {delay}ms elapsed"
     return None
 
 
